@@ -1,4 +1,5 @@
 //! Derived-facts drivers (intervals, pruning, hashing, scalars) -- DESIGN.md 7.4 / 7.6.
+mod c12;
 mod c22;
 mod c23;
 
@@ -6,6 +7,7 @@ fn main() {
     let a: Vec<String> = std::env::args().collect();
     let cmd = a.get(1).map(|s| s.as_str()).unwrap_or("");
     match cmd {
+        "c12" => c12::main(),
         "c22" => c22::main(),
         "c23" => c23::main(),
         _ => {
